@@ -10,8 +10,19 @@ namespace Ftdc
 /-- one top-level document of the output stream -/
 inductive OutDoc where
   | metaDoc (id : Ts) (doc : BDoc)        -- {_id, type: 0, doc}
-  | chunk (id : Ts) (payload : Bytes)     -- {_id, type: 1, data: le32 |payload| ++ deflate payload}
+  /-- {_id, type: 1, data: le32 |payload| ++ deflate payload} with payload = `payloadOf ref first rows` -/
+  | chunk (id : Ts) (ref : BDoc) (first : Row) (rows : List Row)
   deriving Inhabited
+
+/-- the (uncompressed) payload of an output document -/
+def OutDoc.payload : OutDoc → Bytes
+  | .metaDoc _ _ => []
+  | .chunk _ ref first rows => payloadOf ref first rows
+
+/-- the samples an output document holds, as rows of metric values -/
+def OutDoc.samples : OutDoc → List Row
+  | .metaDoc _ _ => []
+  | .chunk _ _ first rows => first :: rows
 
 /-! ### bson_hash.go (after fix F10: every hashed key is NUL-terminated) -/
 mutual
@@ -77,7 +88,7 @@ def resolve (c : Better) : Option (List OutDoc) :=
   match c.ref with
   | none => none
   | some ref =>
-    let ch := OutDoc.chunk c.startedAt (payloadOf ref c.first c.rows)
+    let ch := OutDoc.chunk c.startedAt ref c.first c.rows
     match c.metadata with
     | some md => some [.metaDoc c.startedAt md, ch]
     | none => some [ch]
